@@ -45,10 +45,10 @@ pub fn bits<S: Sc>(x: S) -> u64 {
 fn fb(tok: &str) -> f64 {
     f64::from_bits(tok.parse::<u64>().expect("hex coordinate"))
 }
-fn pt<S: Sc>(x: &str, y: &str) -> Point2<S> {
+pub fn pt<S: Sc>(x: &str, y: &str) -> Point2<S> {
     Point2::new(S::of_f64(fb(x)), S::of_f64(fb(y)))
 }
-fn vd<S: Sc>(x: &str, y: &str, d: &str) -> VD<S> {
+pub fn vd<S: Sc>(x: &str, y: &str, d: &str) -> VD<S> {
     VD { p: pt(x, y), d: d.parse().unwrap() }
 }
 fn err_name(e: InsertionError) -> &'static str {
@@ -666,6 +666,23 @@ pub fn exec_op<T: Tx>(t: &mut T, k: usize, toks: &[&str], out: &mut String) {
         "snap" => {
             out.push('\n');
             out.push_str("R ok\n");
+        }
+        #[cfg(spade_verif)]
+        "prim" => {
+            crate::prims::prim(t, a, out);
+        }
+        #[cfg(spade_verif)]
+        "msq" | "mcic" => {
+            mutating = false;
+            let _ = writeln!(out, " {}", a.join(" "));
+            if name == "msq" {
+                let q = spade::verif_hooks::side_query(pt::<T::S>(a[0], a[1]), pt(a[2], a[3]), pt(a[4], a[5]));
+                let _ = writeln!(out, "R {} {} {}", q.is_on_left_side() as u8, q.is_on_right_side() as u8, q.is_on_line() as u8);
+            } else {
+                let r = spade::verif_hooks::contained_in_circumference(
+                    pt::<T::S>(a[0], a[1]), pt(a[2], a[3]), pt(a[4], a[5]), pt(a[6], a[7]));
+                let _ = writeln!(out, "R {}", r as u8);
+            }
         }
         _ => {
             let is_query = matches!(name, "canc" | "exc" | "confv" | "isc" | "confp" | "nn" | "nnw" | "vor");
